@@ -603,6 +603,10 @@ func cmdWire(args []string) int {
 		case 13:
 			// account creation in a plain and in a distributed wallet, one participant
 			name := fmt.Sprintf("%s/new%d", []string{"Wallet N", "Wallet D"}[rng.Intn(2)], i)
+			if rng.Chance(25) {
+				// names the request parser accepts and the wallet refuses to create
+				name = []string{"Wallet N/_reserved", "Wallet 1/_x", "Wallet N/", "Wallet N", "Wallet 1/Account 0"}[rng.Intn(5)]
+			}
 			d := &pb.GenerateRequest{Account: name, Passphrase: []byte("pass"), Participants: 1, SigningThreshold: 1}
 			timed(fmt.Sprintf("Generate(%q, n=1, t=1) by %q", name, client), func() { _, _ = ah.Generate(hctx, d) })
 			timed("ListAccounts after a creation", func() {
